@@ -16,6 +16,9 @@ lockstep over the capability grid
                 lengths at every boundary +-1; conforming client acks
   windows     : both receiving roles with proposed windows {0,1,2,127,128,255}
                 against own {1,2,127}
+  reception   : receiving a segmented request / ComplexAck with own window in
+                {1,2,8,16,127} != sender's {1,2,3,8,127}; in-order segments with an
+                out-of-order / duplicate / stale segment injected at every position
 
 Implementation-side oracle (independent of the model), on the frames the REAL
 access point emitted (length = real APCI encoder):
@@ -24,7 +27,10 @@ access point emitted (length = real APCI encoder):
   device transmits); number of segments <= the stated maximum; otherwise
   exactly one abort (segmentationNotSupported | apduTooLong) to the requester
   and no data frame; offered window = own in 1..127; used window = min(own,
-  proposed), in 1..127 whenever both are.
+  proposed), in 1..127 whenever both are; EVERY SegmentAck (ack or nak) carries a
+  window <= what the sender proposed in its first segment.  The response limit is
+  decoded by the harness from the header code of the request itself; `learn`
+  events with a larger / smaller I-Am maximum precede the request.
 End-to-end: two complete stacks (harness/e2e.py) over the fault-free VLAN for
 capability pairs x lengths; every frame on the wire is measured against the
 RECEIVER's configured capabilities.
@@ -189,9 +195,13 @@ def client_scenario(ctx, label, cfg, di, n, rng):
 
 def server_scenario(ctx, label, cfg, di, hdr, n, rng):
     """request with capability header `hdr` from peer 0; application answers with n octets"""
-    L = T.Lock(cfg, [[0, di]] if di else [])
+    L = T.Lock(cfg, [])
     L.label = label
     fail = Fail(ctx, L, label, {"role": "server", "cfg": cfg, "di": di, "hdr": hdr, "n": n})
+    if di:
+        # the application learns about the peer (I-Am) BEFORE the request arrives: its
+        # maximum may be larger or smaller than what the request header will announce
+        L.learn(0, di)
     a = {"t": 0, "id": 7, "svc": 200, "maxResp": hdr["maxResp"], "maxSegs": hdr["maxSegs"], "sa": hdr["sa"], "hex": "01"}
     r = L.frame(0, a)
     all_out = list(r["out"])
@@ -203,19 +213,25 @@ def server_scenario(ctx, label, cfg, di, hdr, n, rng):
             fail("reserved-code", "reserved max-APDU code %d: %r" % (hdr["maxResp"], all_out))
         ctx.count("server-class", ("server", "reserved"))
         return L
+    # the limit for the answer is what the REQUEST BEING ANSWERED announced (decoded here from
+    # the header code, independently of the stack); a cached value may lower, never raise it
     announced = table[hdr["maxResp"]]
-    if di and di["maxApdu"] is not None and di["maxApdu"] >= announced:
-        announced = di["maxApdu"]      # the I-Am value is the exact one
-    limit = announced if not (di and di["maxNpdu"] is not None) else min(announced, di["maxNpdu"])
+    limit = announced
+    if di and di["maxApdu"] is not None:
+        limit = min(limit, di["maxApdu"])
+    if di and di["maxNpdu"] is not None:
+        limit = min(limit, di["maxNpdu"])
     r = L.response(0, {"t": 3, "id": 7, "svc": 200, "hex": pattern(n).hex()})
     outs = r["out"]
     all_out += outs
     fits = n + 3 <= limit
     size = limit - 5
-    count = 1 if fits else -(-n // size)
+    count = 1 if fits else (-(-n // size) if size > 0 else 0)
     maxsegs = [None, 2, 4, 8, 16, 32, 64, None][hdr["maxSegs"]]
     if fits:
         expect = "unsegmented"
+    elif size <= 0:
+        expect = ("abort", 11)
     elif cfg["seg"] not in (1, 3) or not hdr["sa"]:
         expect = ("abort", 4)
     elif maxsegs is not None and count > maxsegs:
@@ -302,6 +318,70 @@ def window_scenario(ctx, label, own, proposed):
     return L
 
 
+# ---------------------------------------------------------------- reception with faults
+
+def reception_scenario(ctx, label, own, prop, direction, pos, kind):
+    """we RECEIVE a segmented message (direction 'server': a request; 'client': a
+    ComplexAck) whose sender proposed window `prop` while our own proposal is
+    `own`; segments arrive in order except at position `pos`, where a fault
+    segment is injected: out-of-order (last+2), duplicate (last) or stale (last-1).
+    Oracle: EVERY SegmentAck the real code emits (ack or nak) carries a window in
+    1..127 that does not exceed what the sender proposed in its first segment."""
+    cfg = T.default_cfg()
+    cfg.update(seg=3, window=own, maxSegs=16)
+    L = T.Lock(cfg, [])
+    L.label = label
+    fail = Fail(ctx, L, label, {"role": "reception", "own": own, "proposed": prop, "direction": direction,
+                                "pos": pos, "kind": kind})
+    outs = []
+    if direction == "server":
+        def seg(seq, mor):
+            return {"t": 0, "id": 5, "svc": 200, "maxResp": 5, "maxSegs": 4, "sa": 1, "seg": 1, "mor": mor,
+                    "seq": seq % 256, "win": prop, "hex": "%02x%02x" % (seq % 256, 0xa0)}
+    else:
+        L.request(0, 200, b"q")
+        def seg(seq, mor):
+            return {"t": 3, "id": 1, "svc": 200, "seg": 1, "mor": mor, "seq": seq % 256, "win": prop,
+                    "hex": "%02x%02x" % (seq % 256, 0xb0)}
+    total = 6
+    last = -1
+    for i in range(total):
+        if i == pos and i > 0:
+            bad = {"ooo": last + 2, "dup": last, "stale": last - 1}[kind]
+            outs += L.frame(0, seg(bad, 1))["out"]
+        outs += L.frame(0, seg(i, 0 if i == total - 1 else 1))["out"]
+        last = i
+    acks = [o for o in outs if o["o"] == "send" and o["h"][0] == 4]
+    if not acks:
+        fail("window", "no segment ack at all while receiving: %r" % (outs,))
+    for o in acks:
+        w = o["h"][5]
+        if w is None or w > prop:
+            fail("window-range", "%s %s offers window %r, the sender proposed %d (own %d)" % (
+                direction, "nak" if o["h"][1] else "ack", w, prop, own))
+        elif not (1 <= w <= 127):
+            fail("window-range", "%s segment ack carries window %r (own %d, proposed %d)" % (direction, w, own, prop))
+    ctx.count("reception-class", (direction, kind, own > prop, any(o["h"][1] for o in acks)))
+    return L
+
+
+RECV_OWN = [1, 2, 8, 16, 127]
+RECV_PROP = [1, 2, 3, 8, 127]
+
+
+def reception_grid():
+    out = []
+    for own in RECV_OWN:
+        for prop in RECV_PROP:
+            if own == prop:
+                continue
+            for direction in ("server", "client"):
+                for pos in (1, 2, 3, 5):
+                    for kind in ("ooo", "dup", "stale"):
+                        out.append(("r", own, prop, direction, pos, kind))
+    return out
+
+
 # ---------------------------------------------------------------- grid
 
 def client_grid(ctx):
@@ -353,22 +433,35 @@ def shard(ctx, spec):
             cfg.update(seg=rng.choice([3, 3, 3, 1, 0, 2]), window=w)
             hdr = {"maxResp": code, "maxSegs": mscode, "sa": sa}
             variants = [None]
-            if idx % 4 == 0:
-                variants.append({"maxApdu": rng.choice(APDUS + [300, 49]), "seg": rng.randrange(4), "maxSegs": None,
-                                 "maxNpdu": rng.choice([None, None, 100, 2000])})
+            if code <= 5:
+                ann0 = [50, 128, 206, 480, 1024, 1476][code]
+                larger = [x for x in APDUS + [300, 2000] if x > ann0]
+                smaller = [x for x in APDUS + [49, 100, 300] if x < ann0]
+                if idx % 3 == 0 and larger:      # I-Am says MORE than the request header
+                    variants.append({"maxApdu": rng.choice(larger), "seg": rng.randrange(4), "maxSegs": None, "maxNpdu": None})
+                if idx % 3 == 1 and smaller:     # I-Am says LESS
+                    variants.append({"maxApdu": rng.choice(smaller), "seg": rng.randrange(4), "maxSegs": None, "maxNpdu": None})
+                if idx % 3 == 2:
+                    variants.append({"maxApdu": rng.choice(APDUS), "seg": rng.randrange(4), "maxSegs": None,
+                                     "maxNpdu": rng.choice([100, 2000, ann0 - 9])})
             for v, di in enumerate(variants):
                 if code > 5:
                     locks.append(server_scenario(ctx, "server-%d-%d-x" % (idx, v), dict(cfg), di, hdr, 10, rng))
                     continue
-                ann = [50, 128, 206, 480, 1024, 1476][code]
-                if di and di["maxApdu"] is not None and di["maxApdu"] >= ann:
-                    ann = di["maxApdu"]
-                lim = ann if not (di and di["maxNpdu"] is not None) else min(ann, di["maxNpdu"])
+                lim = [50, 128, 206, 480, 1024, 1476][code]
+                if di and di["maxApdu"] is not None:
+                    lim = min(lim, di["maxApdu"])
+                if di and di["maxNpdu"] is not None:
+                    lim = min(lim, di["maxNpdu"])
                 msv = [None, 2, 4, 8, 16, 32, 64, None][mscode]
                 for n in boundary_lengths(lim, 3, 5, msv):
                     if n > 70000:
                         continue
                     locks.append(server_scenario(ctx, "server-%d-%d-%d" % (idx, v, n), dict(cfg), di, hdr, n, rng))
+        elif it[0] == "r":
+            _r, own, prop, direction, pos, rkind = it
+            locks.append(reception_scenario(ctx, "recv-%d-%d-%s-%d-%s" % (own, prop, direction, pos, rkind),
+                                            own, prop, direction, pos, rkind))
         else:
             _w, own, prop = it
             locks.append(window_scenario(ctx, "window-%d-%d" % (own, prop), own, prop))
@@ -471,6 +564,8 @@ def run_case(ctx, case, label):
         L = client_scenario(ctx, label, p["cfg"], p["di"], p["n"], rng)
     elif p["role"] == "server":
         L = server_scenario(ctx, label, p["cfg"], p["di"], p["hdr"], p["n"], rng)
+    elif p["role"] == "reception":
+        L = reception_scenario(ctx, label, p["own"], p["proposed"], p["direction"], p["pos"], p["kind"])
     else:
         L = window_scenario(ctx, label, p["own"], p["proposed"])
     T.compare(ctx, "corpus", [L], exe="drv_c12")
@@ -497,6 +592,9 @@ def run(ctx):
             if part:
                 specs.append((kind, part))
     specs.append(("window", wins))
+    rg = list(enumerate(reception_grid()))
+    for i in range(4):
+        specs.append(("reception", rg[i::4]))
     core.run_shards(ctx, "harness.c12", "shard", specs)
     cases = e2e_cases(ctx, ctx.sub_rng("c12/e2e"))
     chunks = [cases[i::16] for i in range(16)]
